@@ -1,4 +1,5 @@
 #include "../matrix.hpp"
+#include "../common.hpp"
 
 #include "_matrix_vectorize.hpp"
 
@@ -13,7 +14,11 @@ namespace glm
 	template<length_t C, length_t R, typename T, typename U, qualifier Q>
 	GLM_FUNC_QUALIFIER mat<C, R, T, Q> mix(mat<C, R, T, Q> const& x, mat<C, R, T, Q> const& y, mat<C, R, U, Q> const& a)
 	{
-		return matrixCompMult(mat<C, R, U, Q>(x), static_cast<U>(1) - a) + matrixCompMult(mat<C, R, U, Q>(y), a);
+		// per column through the vector overload: operator-(T, mat) only exists for the square shapes
+		mat<C, R, T, Q> Result;
+		for(length_t i = 0; i < C; ++i)
+			Result[i] = mix(x[i], y[i], a[i]);
+		return Result;
 	}
 
 	template<length_t C, length_t R, typename T, qualifier Q, bool Aligned>
